@@ -43,6 +43,11 @@ theorem C03_trunk_eq_components (E : Env) (hsym : SymmAdj E) (order : List Nat) 
     (∃ t ∈ run E order, p ∈ t.pixels ∧ q ∈ t.pixels) ↔ Conn E.nbrs (fun x => x ∈ order) p q :=
   P21.trunk_eq_components E hsym order hnd p q hp hq
 
+/-- **C03 (for the dendrogram that `compute` returns)**: re-labelling and the trunk step do not
+change regions, so every structure of the result is connected. -/
+theorem C03_compute_all_connected (E : Env) (hsym : SymmAdj E) (order : List Nat) :
+    ∀ t ∈ preL (compute E order), PixConn E t := P30.compute_all_connected E hsym order
+
 -- non-vacuity: the 6-pixel row is sorted, duplicate-free, and its adjacency is symmetric
 example : let E := envOf (fun p => [1, 10, 5, 9, 2, 8][p]!) (Grid.nbrs [6] []) []
     [1, 3, 5, 2, 4, 0].Nodup ∧ sortedDesc E.val [1, 3, 5, 2, 4, 0] = true := by decide
